@@ -10,6 +10,7 @@ Separate Extraction
   Match.glob_match Match.glob_matches
   Pattern.pattern_new Pattern.pattern_new_panics Pattern.content_to_patterns Pattern.applies
   Pattern.lines Pattern.is_rule_line Pattern.strip_trailing_blanks
-  Model.check_str Model.add_patterns Model.empty_rules
+  Model.check_str Model.check_str35 Model.add_patterns Model.empty_rules Model.global_rules
+  Model.walk_panics Pattern.content_panics
   Model.spec_walk Model.serial_walk Model.par_walk Model.final Model.dir_count Model.wf_tree
   Trace.par_walk_drained Trace.tv_validate.
